@@ -103,8 +103,10 @@ CHECKS = {
         note="Trusted: as C01; effective variant names come from Derive.v (key_name_for_ident), tied by correspondence. No axioms."),
     "C11": dict(
         text="Proof: exact run equations for container-level from / try_from and for validate (function invoked once, right after and only after its input deserialized, with that value; "
-             "failure handed to the error type once at the container's location; result flows into the output). Field-level from/try_from/map and field-level error types are decided by "
-             "correspondence, the Spec.v monitor on the sequence of user-function invocations (mon_c11) and the linearity monitor.",
+             "failure handed to the error type once at the container's location; result flows into the output); field level, every script (c11_field_stage_ok / _err): once the field's value has "
+             "deserialized its from/try_from function runs exactly once, right then, on that value - a failing try_from is handed to the field's error type, then to the container's, at the field's "
+             "location - and when the value did not deserialize no function runs; (c11_maps_at_construction) map functions run once each in field order, skipped fields last, on the final values. "
+             "The whole invocation sequence under a keep-going error type is the specified one (c02_refinement). Correspondence + Spec.v monitor on the sequence of invocations (mon_c11) + linearity monitor.",
         ref="5 C11", technique="Coq run equations; in-Coq differential check with logging user functions + Spec.v monitor of the invocation sequence",
         note="Trusted: as C01 + the harness's user-function library and its Gallina twin (ufail). Field-level stages: under a keep-going error type the full sequence of invocations is the specified one by c02_refinement (trace_ucalls = s_ucalls); other scripts by correspondence. No axioms."),
     "C12": dict(
